@@ -42,4 +42,39 @@ def spec (c : Cfg) (o : Obs) : Bool :=
       && (answered c o k || o.tx.getD k 0 == c.R)                     -- unanswered: transmitted `retries` times
       && (!(answered c o k && (!c.dep k || answered c o c.product)) || o.present.getD k false))  -- data available
 
+
+/-! ### the observation of a model run (what the harness records of an implementation run) -/
+
+/-- time of the first response of each kind: `a k` so far, updated by one event happening in state `s` -/
+def noteAnswer (a : Nat → Option Nat) (s : St) : Ev → (Nat → Option Nat)
+  | .answer k => fun j => if j = k then (match a k with | none => some s.now | some t => some t) else a j
+  | _ => a
+
+def answerTimes (c : Cfg) : St → (Nat → Option Nat) → List Ev → (Nat → Option Nat)
+  | _, a, [] => a
+  | s, a, e :: es => answerTimes c (step c s e).1 (noteAnswer a s e) es
+
+/-- the events after the first sensor data -/
+def afterSensors : List Ev → Option (List Ev)
+  | [] => none
+  | .sensors :: r => some r
+  | _ :: r => afterSensors r
+
+def isLoaded (s : St) : Bool :=
+  match s.phase with
+  | .loaded => true
+  | _ => false
+
+def observe (c : Cfg) (es : List Ev) : Obs :=
+  let s := (run c init es).1
+  { t0 := s.t0
+    answers := (kinds c).map (answerTimes c init (fun _ => none) es)
+    complete := isLoaded s || (match afterSensors es with
+      | some post => decide (c.R ≤ post.count .timer)
+      | none => false)
+    loadedAt := if isLoaded s then some s.loadedAt else none
+    errors := s.errors
+    tx := (kinds c).map s.tx
+    present := (kinds c).map (avail c s) }
+
 end PlumVerif.C16
